@@ -58,6 +58,8 @@ def run(ctx, rep):
     C.check_reading(r4)
     r5 = rep.rule("P5+P7.required", "required tags, guard, and the three routes", floor=7)
     C.check_required(r5)
+    r8 = rep.rule("ctor", "the Chart stores exactly what from_file built, under the right attribute", floor=1)
+    C.check_chart_init(r8)
     r6 = rep.rule("P6.table", "40-row header table = file format table", floor=41)
     r7 = rep.rule("P6.routing", "pair order, own body, store key, labels; unknown sections only reported", floor=1)
     parts = C.routing(r7)
